@@ -175,7 +175,14 @@ Proof. apply bd_write. Qed.
 Lemma bd_remove n0 sp k : bd n0 (remove_from_context sp k) TT.
 Proof.
   unfold remove_from_context. apply bd_TT_bind; [apply bd_read|]. intros d n1.
-  destruct (aget d k); [apply bd_write|apply bd_throw].
+  destruct (aget d k); [apply bd_write|].
+  destruct remove_tolerant; [apply bd_ret; [exact up_TT|exact I]|apply bd_throw].
+Qed.
+
+Lemma bd_leave_loop n0 sp k sh : bd n0 (leave_loop sp k sh) TT.
+Proof.
+  unfold leave_loop. destruct loop_scope_policy; [apply bd_remove|].
+  destruct sh; [apply bd_sp|apply bd_remove].
 Qed.
 
 Lemma bd_render_cell n0 sp c : bd n0 (render_cell sp c) TT.
@@ -193,6 +200,30 @@ Lemma bpst_add n a u x : bpst n a -> bu n u -> bact n x -> forall c, bcont n c -
 Proof.
   intros [H1 H2] Hu Hx c Hc. split; cbn; [|exact Hc].
   apply Forall_app. split; [exact H1|]. constructor; [split; assumption|constructor].
+Qed.
+
+Lemma bd_skip_frow : forall r n0, bd n0 (skip_frow r) TT.
+Proof.
+  induction r as [n c|n g i|n f i|v its body IHb| |] using frow_ind2; intros n0; cbn [skip_frow];
+    try apply bd_with_tt.
+  - apply bd_TT_bind; [apply bd_with_tt|]. intros _ n1.
+    apply bd_TT_bind; [|intros _ n2; apply bd_with_tt].
+    clear n0. revert n1. induction IHb as [|x t Hx Ht IHt]; intros n1; [apply bd_ret; [exact up_TT|exact I]|].
+    apply bd_TT_bind; [apply Hx|]. intros _ n2. apply IHt.
+  - apply bd_with, bd_throw.
+Qed.
+
+Lemma bd_skip_frows : forall b n0, bd n0 (skip_frows b) TT.
+Proof.
+  induction b as [|r b IH]; intros n0; cbn [skip_frows]; [apply bd_ret; [exact up_TT|exact I]|].
+  apply bd_TT_bind; [apply bd_skip_frow|]. intros _ n1. apply IH.
+Qed.
+
+Lemma bd_skip_empty_body n0 its body : bd n0 (skip_empty_body its body) TT.
+Proof.
+  unfold skip_empty_body. destruct its; [|apply bd_ret; [exact up_TT|exact I]].
+  destruct empty_loop_policy; [apply bd_ret; [exact up_TT|exact I]|].
+  apply bd_TT_bind; [apply bd_skip_frows|]. intros _ n1. apply bd_with_tt.
 Qed.
 
 Lemma bd_parse_frow : forall r sp n0 a, bpst n0 a -> bd n0 (parse_frow sp r a) bpst.
@@ -216,7 +247,8 @@ Proof.
     + intros c1 n2 L2 Hc. eapply bd_bind; [apply bd_node_uuid|]. intros u n3 L3 Hu.
       apply bd_ret; [exact up_bpst|].
       apply bpst_add; [eapply up_bpst; [|exact W1]; lia|exact Hu|exact I|eapply up_bcont; [|exact Hc]; lia].
-  - eapply bd_bind; [apply bd_with_tt|]. intros _ n1 L1 _.
+  - eapply bd_bind; [apply bd_with_tt|]. intros _ n1' L1' _.
+    eapply bd_bind; [apply bd_read|]. intros d0 n1 L1 _.
     assert (W1 : bpst n1 a) by (eapply up_bpst; [|exact W]; lia).
     eapply bd_bind with (Q := bpst).
     + clear W L1. revert n1 a W1. induction its as [|it rest IHits]; intros n1 a W1.
@@ -229,7 +261,8 @@ Proof.
            ++ eapply bd_bind; [apply Hx; exact W2|]. intros a1 n3 L3 W3. apply IHt. exact W3.
         -- intros a' n3 L3 W3. eapply bd_bind; [apply bd_with_tt|]. intros _ n4 L4 _.
            apply IHits. eapply up_bpst; [|exact W3]. lia.
-    + intros a1 n2 L2 W2. eapply bd_bind; [apply bd_remove|]. intros _ n3 L3 _.
+    + intros a1 n2 L2 W2. eapply bd_bind; [apply bd_skip_empty_body|]. intros _ n3' L3' _.
+      eapply bd_bind; [apply bd_leave_loop|]. intros _ n3 L3 _.
       apply bd_ret; [exact up_bpst|]. eapply up_bpst; [|exact W2]. lia.
   - apply bd_with, bd_throw.
   - eapply bd_bind; [apply bd_with_tt|]. intros _ n1 L1 _. apply bd_with, bd_throw.
